@@ -1,4 +1,147 @@
-(* placeholder: theorems are added below as the proof files land *)
-From V Require Import C11.Model.
-Theorem c11_placeholder : True. Proof. exact I. Qed.
-Print Assumptions c11_placeholder.
+(* C11 - The lock-free queue and spin lock are correct under every interleaving.
+   Every theorem is about the interleaving transition system of coq/C11/Ring.v (relation [step], any number of producers,
+   any capacity_ = max_size + 1 >= 2, any elements, one consumer, every interleaving of the atomic operations, weak
+   compare-exchange may fail spuriously) resp. of coq/C11/Model.v ([sstep], any number of threads, any scripts).
+   Assumptions: sequentially consistent interleaving (memory_order ignored), no wrap of the 64-bit counters.
+   The tie to the C++: every trace of the real headers under the scheduler shim is replayed by the executable acceptor;
+   [acceptor_simulation] / [accepted_trace_reachable] show that an accepted trace stays inside the reachable states. *)
+From Coq Require Import List Arith PeanoNat Permutation.
+From V Require Import C11.Glue C11.Ring C11.Ghost C11.Proofs C11.Sim C11.SpinProofs C11.Meets C11.Examples.
+Import ListNotations.
+Local Open Scope nat_scope.
+
+(* ---- the invariant RingInv (DESIGN.md A.1) is inductive and holds initially *)
+Theorem ring_inv_init : forall max_size nprod, 1 <= max_size -> Inv (init max_size nprod).
+Proof. exact inv_init. Qed.
+Print Assumptions ring_inv_init.
+
+Theorem ring_step_preserves_inv : forall s s', Inv s -> step s s' -> Inv s'.
+Proof. exact step_preserves_inv. Qed.
+Print Assumptions ring_step_preserves_inv.
+
+Theorem ring_reachable_invariants : forall max_size nprod s, 1 <= max_size -> reachable (init max_size nprod) s -> AllInv s.
+Proof. exact reachable_all. Qed.
+Print Assumptions ring_reachable_invariants.
+
+(* ---- the acceptor only makes steps of the transition system *)
+Theorem acceptor_simulation : forall a t o a', accept_ring a (Thr t, o) = Accepted a' -> step (core a) (core a').
+Proof. exact accept_ring_is_step. Qed.
+Print Assumptions acceptor_simulation.
+
+Theorem accepted_trace_reachable : forall max_size scripts chunks trace a,
+  replay_ring max_size scripts chunks trace = RDone a -> RP (init max_size (length scripts)) a.
+Proof. exact Meets.accepted_trace_reachable. Qed.
+Print Assumptions accepted_trace_reachable.
+
+(* ---- "consumes every element whose Add reported success exactly once" *)
+Theorem ring_exactly_once : forall max_size nprod s, 1 <= max_size -> reachable (init max_size nprod) s ->
+  (exists rest, log s = got s ++ rest) /\
+  log s = map (elt_of (gh s)) (logid (gh s)) /\
+  NoDup (logid (gh s)) /\
+  (forall c, In (c, true) (rets (gh s)) -> In c (logid (gh s))) /\
+  (forall c, In (c, false) (rets (gh s)) -> ~ In c (logid (gh s))) /\
+  (NoDup (given_elts s) -> NoDup (got s) /\ NoDup (log s)).
+Proof. exact exactly_once. Qed.
+Print Assumptions ring_exactly_once.
+
+(* ---- "in each producer's own order" *)
+Theorem ring_per_producer_fifo : forall max_size nprod s, 1 <= max_size -> reachable (init max_size nprod) s ->
+  forall i j ci cj, i < j -> nth_error (logid (gh s)) i = Some ci -> nth_error (logid (gh s)) j = Some cj ->
+    owner (gh s) ci = owner (gh s) cj -> ci < cj.
+Proof. exact per_producer_fifo. Qed.
+Print Assumptions ring_per_producer_fifo.
+
+(* ---- "the number of queued elements never exceeds the capacity" *)
+Theorem ring_bounded : forall max_size nprod s, 1 <= max_size -> reachable (init max_size nprod) s ->
+  head s - tail s <= max_size /\ Forall (fun z => z <= max_size) (sizes (gh s)) /\
+  length (slot_elts s) <= S max_size + length (owned_elts s) /\ head s - low s <= S max_size.
+Proof. exact bounded. Qed.
+Print Assumptions ring_bounded.
+
+(* ---- "no element is leaked or freed twice" *)
+Theorem ring_no_leak_no_double_free : forall max_size nprod s, 1 <= max_size -> reachable (init max_size nprod) s ->
+  Permutation (given_elts s) (held s ++ got s ++ slot_elts s ++ in_hand_elts s).
+Proof. exact conservation. Qed.
+Print Assumptions ring_no_leak_no_double_free.
+
+Theorem ring_destruction_frees_rest_once : forall max_size nprod s, 1 <= max_size -> reachable (init max_size nprod) s -> all_idle s ->
+  Permutation (slot_elts s) (skipn (low s) (log s)) /\
+  Permutation (given_elts s) (held s ++ got s ++ destroy_list s).
+Proof. exact destruction. Qed.
+Print Assumptions ring_destruction_frees_rest_once.
+
+(* ---- "an Add that reports failure leaves its element with the caller" *)
+Theorem ring_fail_leaves_element : forall max_size nprod s, 1 <= max_size -> reachable (init max_size nprod) s ->
+  held s = map rf_x (refusals (gh s)) /\
+  (NoDup (given_elts s) -> forall r, In r (refusals (gh s)) ->
+     ~ In (rf_x r) (log s) /\ ~ In (rf_x r) (got s) /\ ~ In (rf_x r) (slot_elts s)).
+Proof. exact fail_leaves_element. Qed.
+Print Assumptions ring_fail_leaves_element.
+
+(* ---- "... and happens only if the producers that had started before it finished, minus what was consumed before it
+        started, already fill the capacity" (exact counting form: first conjunct) *)
+Theorem ring_fail_legit : forall max_size nprod s, 1 <= max_size -> reachable (init max_size nprod) s ->
+  forall r, In r (refusals (gh s)) ->
+    max_size + rf_consumed r <= rf_started r /\
+    (rf_consumed r <= rf_t r /\ max_size <= rf_h r - rf_t r /\ rf_h r <= rf_started r).
+Proof. exact fail_legit. Qed.
+Print Assumptions ring_fail_legit.
+
+Theorem ring_undo_returns_own_element : forall max_size nprod s p x h, 1 <= max_size -> reachable (init max_size nprod) s ->
+  prod s p = PUndo x h -> slots s (h mod cap s) = Some x.
+Proof. exact undo_returns_own_element. Qed.
+Print Assumptions ring_undo_returns_own_element.
+
+(* ---- model_meets_spec (summary-level clauses) on every complete accepted trace *)
+Theorem ring_model_meets_spec_no_leak : forall max_size scripts chunks trace a, 1 <= max_size ->
+  replay_ring max_size scripts chunks trace = RDone a -> ph a = Dead ->
+  sL (ring_summary a) = 0 /\
+  Permutation (given_elts (core a)) (held (core a) ++ got (core a) ++ freed a) /\
+  Forall (fun z => z <= max_size) (sZ (ring_summary a)).
+Proof. exact model_meets_spec_no_leak. Qed.
+Print Assumptions ring_model_meets_spec_no_leak.
+
+Theorem ring_model_meets_spec_checks : forall max_size scripts chunks trace a, 1 <= max_size ->
+  replay_ring max_size scripts chunks trace = RDone a -> ph a = Dead ->
+  check (forallb (fun z => z <=? max_size) (sZ (ring_summary a))) "bounded:size" = [] /\
+  check (Nat.eqb (sL (ring_summary a)) 0) "no_leak:alive" = [].
+Proof. exact model_meets_spec_bounded_size. Qed.
+Print Assumptions ring_model_meets_spec_checks.
+
+(* ---- spin lock: "admits at most one holder at a time" *)
+Theorem spin_mutex : forall scripts s, sreach (spin_init scripts) s ->
+  (forall t1 t2, holder (spc s t1) = true -> holder (spc s t2) = true -> t1 = t2) /\ maxin s <= 1 /\ incs s <= 1.
+Proof. exact mutex. Qed.
+Print Assumptions spin_mutex.
+
+(* ---- "try_lock succeeds only on a free lock" *)
+Theorem spin_trylock_only_free : forall scripts s t s' o, sreach (spin_init scripts) s -> sstep s t = Some (s', o) ->
+  holder (spc s t) = false -> holder (spc s' t) = true ->
+  flag s = false /\ (forall t', holder (spc s t') = false).
+Proof. exact trylock_only_free. Qed.
+Print Assumptions spin_trylock_only_free.
+
+Theorem spin_trylock_fails_on_held : forall s t, spc s t = TLd \/ spc s t = TX -> flag s = true ->
+  exists s' o, sstep s t = Some (s', o) /\ spc s' t = TRet false.
+Proof. exact trylock_fails_on_held. Qed.
+Print Assumptions spin_trylock_fails_on_held.
+
+(* ---- "every lock() returns once the holder unlocks" (solo progress; full starvation freedom is false of any spin lock) *)
+Theorem spin_lock_solo_progress : forall s t, flag s = false -> in_lock (spc s t) = true ->
+  exists k s', k <= 3 /\ solo s t k = Some s' /\ spc s' t = LAcq /\ flag s' = true.
+Proof. exact lock_solo_progress. Qed.
+Print Assumptions spin_lock_solo_progress.
+
+Theorem spin_lock_blocked_while_held : forall s t k s', flag s = true -> in_lock (spc s t) = true -> solo s t k = Some s' ->
+  flag s' = true /\ in_lock (spc s' t) = true.
+Proof. exact lock_blocked_while_held. Qed.
+Print Assumptions spin_lock_blocked_while_held.
+
+Theorem spin_acceptor_simulation : forall scripts trace s, replay_spin scripts trace = RDone s -> sreach (spin_init scripts) s.
+Proof. exact accepted_spin_reachable. Qed.
+Print Assumptions spin_acceptor_simulation.
+
+Theorem spin_model_meets_spec_mutex : forall scripts trace s, replay_spin scripts trace = RDone s ->
+  check (maxin s <=? 1) "spin_mutex:max_in_cs" = [].
+Proof. exact model_meets_spec_spin_mutex. Qed.
+Print Assumptions spin_model_meets_spec_mutex.
